@@ -82,3 +82,109 @@ def extra_checks(tier, seed):
     if bad:
         out["undecided"] = [f"regex translation disagrees with CPython re on {bad} strings (checker problem, not a verdict)"]
     return out
+
+
+# ------------------------------------------------------------------------------------------------------------------
+# interpretation of an accepted specifier (the real _check_format_spec + _check_formatting on symbolic group strings)
+# ------------------------------------------------------------------------------------------------------------------
+DIG = z3.Plus(z3.Range("0", "9"))
+HEX6 = z3.Loop(z3.Union(z3.Range("0", "9"), z3.Range("a", "f"), z3.Range("A", "F")), 6, 6)
+
+
+def interp_unit(alpha_kind):
+    @unit(("C19", "C05") if alpha_kind == "absent" else "C19", f"common:BaseImage._check_format_spec/interpretation[alpha={alpha_kind}]")
+    def u(ctx, alpha_kind=alpha_kind):
+        obs = []
+        pats = patterns(ctx)
+        R_alpha = rx.to_z3re(*pats["_ALPHA_BG_FORMAT"])
+        R_nv = rx.to_z3re(*pats["_NO_VERTICAL_SPEC"])
+        default_alpha = ctx.const("term_image.image.common", "_ALPHA_THRESHOLD")
+        for h_align in (None, "<", "|", ">"):
+            for v_kind in ("absent", "align", "height", "both"):
+                for has_w in (False, True):
+                    for has_style in (False, True):
+                        v_align = "^" if v_kind in ("align", "both") else None
+                        eng = ctx.engine(f"C19/interpretation[alpha={alpha_kind},h={h_align},w={has_w},v={v_kind},style={has_style}]", "C19")
+                        eng.default_replay = "C19.interpretation"
+                        st = State()
+                        eng.genv.update(UTIL_ERRS)
+                        tw, th = z3.Ints("term_w term_h")
+                        st.pc += [tw >= 1, th >= 1]
+                        eng.genv["get_terminal_size"] = Fn(lambda e, s, a, k: [(Rec("terminal_size", {"columns": tw, "lines": th}), s)])
+                        eng.genv["_ALPHA_THRESHOLD"] = default_alpha
+                        Wd, Hd, Thr, Hex, Sty = z3.String("width_digits"), z3.String("height_digits"), z3.String("threshold_digits"), z3.String("hex6"), z3.String("style")
+                        st.pc += [z3.InRe(Wd, DIG), z3.InRe(Hd, DIG), z3.InRe(Thr, z3.Concat(z3.Re("."), DIG)), z3.InRe(Hex, HEX6), z3.Length(Sty) >= 1,
+                                  z3.Length(Wd) <= 6, z3.Length(Hd) <= 6]
+                        width = Wd if has_w else None
+                        height = Hd if v_kind in ("height", "both") else None
+                        tob = {"absent": None, "#": None, "threshold": Thr, "hex": Hex, "##": "#"}[alpha_kind]
+                        alpha_grp = None if alpha_kind == "absent" else "#"       # group 7 is the text of the `#...` part: only its truthiness is used
+                        style = Sty if has_style else None
+                        groups = ("_g1", h_align, width, (None if v_kind == "absent" else "."), v_align, height, alpha_grp, tob, ("+" if has_style else None), style)
+                        match = Rec("match", {"_groups": groups})
+                        eng.attrs[("match", "groups")] = lambda e, s, v: [(Fn(lambda e2, s2, a, k: [(v.f["_groups"], s2)]), s)]
+                        fmt = st.new("re_format")
+                        eng.methods[("re_format", "fullmatch")] = lambda e, s, recv, a, k: [(match, s)]     # the driver enumerates accepted shapes
+                        nv = st.new("re_novert")
+                        eng.methods[("re_novert", "fullmatch")] = lambda e, s, recv, a, k: [(None, s)]       # a `.` is followed by v_align / height here
+                        ab = st.new("re_alpha_bg")
+
+                        def alpha_fullmatch(e, s, recv, a, k):
+                            x = a[0]
+                            if isinstance(x, str):
+                                import re as _re
+                                return [(_re.compile(pats["_ALPHA_BG_FORMAT"][0], pats["_ALPHA_BG_FORMAT"][1]).fullmatch(x) is not None or None, s)]
+                            return [((True if side else None), s2) for side, s2 in e.split(s, z3.InRe(x, R_alpha))]
+                        eng.methods[("re_alpha_bg", "fullmatch")] = alpha_fullmatch
+                        eng.genv.update(_FORMAT_SPEC=fmt, _NO_VERTICAL_SPEC=nv, _ALPHA_BG_FORMAT=ab)
+                        cls = st.new("imgcls", {})
+                        chk = inline(ctx.fn(COMMON, "BaseImage._check_formatting"), eng)
+                        eng.methods[("imgcls", "_check_formatting")] = lambda e, s, recv, a, k: e.call(chk, tuple(a), k, s)
+                        STYLE_ARGS = st.new("dict", {"@items": {"parsed": "style-args"}})
+
+                        def check_style(e, s, recv, a, k):
+                            e.oblige("style-part-passed-on-unchanged", s, a[0] is Sty and a[1] is Sty, kind="pre")
+                            e.raise_(ExcVal("StyleError"), e.fork(s))
+                            return [(STYLE_ARGS, s)]
+                        eng.methods[("imgcls", "_check_style_format_spec")] = check_style
+                        eng.exc_parents["StyleError"] = "TermImageError"
+                        st.env.update(cls=cls, spec=Opaque("spec"))
+                        outs = run_function(eng, ctx.fn(COMMON, "BaseImage._check_format_spec"), st)
+                        from pyvc.engine import PY_FLOAT
+                        for kind, val, s in outs:
+                            if kind == "raise":
+                                eng.oblige(f"only-an-invalid-style-part-is-rejected({val.cls})", s, has_style and val.cls == "StyleError", kind="raise")
+                                continue
+                            if not (isinstance(val, tuple) and len(val) == 6):
+                                eng.oblige("returns(h_align,width,v_align,height,alpha,style_args)", s, False, kind="post")
+                                continue
+                            ha, w_, va, h_, al, sa = val
+                            wn = z3.StrToInt(Wd) if has_w else 0
+                            hn = z3.StrToInt(Hd) if height is not None else None
+                            exp_w = z3.If(wn > 0, wn, z3.If(tw + wn > 1, tw + wn, 1)) if has_w else tw           # absent or zero: terminal width
+                            exp_h = (z3.If(hn > 0, hn, z3.If(th + hn > 1, th + hn, 1)) if hn is not None else z3.If(th - 2 > 1, th - 2, 1))   # absent: terminal height - 2
+                            eng.oblige("alignment-as-written(absent=default)", s, ha == h_align and va == v_align, kind="post")
+                            eng.oblige("padding-size:given-number,zero=terminal-relative-0,absent=documented-default", s, And(Eq(w_, exp_w), Eq(h_, exp_h)), kind="post")
+                            eng.oblige("C05:format-spec-padding-size=equivalent-draw()-parameters", s, And(Eq(w_, exp_w), Eq(h_, exp_h)), prop="C05", kind="post")
+                            if alpha_kind == "absent":
+                                oka = al == default_alpha
+                            elif alpha_kind == "#":
+                                oka = al is None                                  # transparency disabled
+                            elif alpha_kind == "##":
+                                oka = al == "#"                                   # terminal background
+                            elif alpha_kind == "hex":
+                                oka = is_sym(al) and z3.is_string(al) and (al == z3.Concat(z3.StringVal("#"), Hex))
+                            else:
+                                oka = is_sym(al) and z3.is_real(al) and (al == PY_FLOAT(Thr))
+                            eng.oblige("transparency-setting-as-documented", s, oka, kind="post")
+                            if has_style:
+                                eng.oblige("style-arguments-from-the-style-part", s, sa is STYLE_ARGS, kind="post")
+                            else:
+                                eng.oblige("no-style-part:empty-style-arguments", s, isinstance(sa, Ref) and s.H(sa).get("@items") == {}, kind="post")
+                        obs += eng.obligations
+        return obs
+    return u
+
+
+for _ak in ("absent", "#", "threshold", "hex", "##"):
+    interp_unit(_ak)
